@@ -3,6 +3,7 @@
 #  1. every obligation of the property re-solved from scratch (no verdict cache) with 90 s solver timeouts
 #  2. the regression histories of the repaired defects of that property, run against the real code of /repo
 #     through `go test -overlay` (nothing is written into /repo)
+#  2b. (C01 only) the pure bit-vector lemmas assumed by the models of Go builtins (lemmas/*.smt2) re-proved
 #  3. the must-fail mutants of the property on scratch copies (a missed mutant means the check has lost its
 #     teeth: exit 2, not a VIOLATION)
 p=$1
@@ -26,5 +27,6 @@ if [ -n "$t" ]; then
  fi
  echo "$p: regression histories $t pass on the real code"
 fi
+if [ "$p" = C01 ]; then sh lemmas/check.sh || exit 2; fi
 python3 selftest/run.py -j 3 -p "$p" || exit 2
 exit 0
